@@ -79,6 +79,17 @@ pub fn finish(check: &dyn Check, tier: Tier, out: Outcome) -> i32 {
         coverage["timeouts_fired"] = json!(acc.timer_fires);
         coverage["explanation"] = json!("states = scheduler decision points visited; transitions = visible operations executed; every trace is an execution of the real implementation under the controlled scheduler, so traces_validated_against_impl = executions");
     }
+    // the binding of the network model to kernel sockets (bin/check conformance), if it ran
+    if let Ok(txt) = std::fs::read_to_string(dir.join("evidence").join("conformance.json")) {
+        if let Ok(c) = serde_json::from_str::<Value>(&txt) {
+            coverage["conformance_with_kernel_sockets"] = json!({
+                "conversations_replayed": c["scenarios_compared"], "identical_observations": c["identical"],
+                "mismatches": c["mismatches"].as_array().map(|a| a.len()), "real_only_clauses": c["real_only"],
+                "real_only_failures": c["real_only_failures"],
+                "note": "fixed replay list (not an exploration): binds the in-memory network model and the wall-clock / peer-address / socket-path clauses to Linux TCP and UNIX sockets",
+            });
+        }
+    }
     if let Value::Object(extra) = check.coverage_extra(tier, acc) {
         for (k, v) in extra {
             coverage[k] = v;
